@@ -439,8 +439,14 @@ func (g *G) PosPred(maxN int) Expr {
 	case 4:
 		return bin("-", call("last"), num(g.R.Intn(3)))
 	case 5:
+		if g.Chance(0.4) {
+			return bin(g.Pick("=", "<", "!=", "<=", ">", ">="), call("last"), call("position")) // mirrored: last() first
+		}
 		return bin(g.Pick("=", "<", "!=", "<=", ">", ">="), call("position"), call("last"))
 	case 6:
+		if g.Chance(0.4) {
+			return bin("=", bin("-", call("last"), num(1+g.R.Intn(2))), call("position"))
+		}
 		return bin("=", call("position"), bin("-", call("last"), num(1+g.R.Intn(2))))
 	default:
 		return bin(g.Pick("=", "<", ">"), n1(), call("position"))
